@@ -7,14 +7,30 @@
    _write_stream_frame / _write_reset_stream_frame / _write_stop_sending_frame calls for any stream in any order,
    stop_stream, with any size budget)
    in which transport parameters never lower a flow-control value the connection already holds
-   ([pguard], RFC 9000 7.4.1).  [gm sid] is the largest MAX_STREAM_DATA value received for the stream. *)
-From Coq Require Import ZArith List Bool.
-From AQ Require Import lib.Base model.RangeSet model.StreamSend model.FlowSend proofs.StreamSendP proofs.FlowSendP proofs.FlowSendP2.
+   ([pguard], RFC 9000 7.4.1).  [gm sid] is the largest MAX_STREAM_DATA value received for the stream.
 
-(* at every moment highest_offset(s) <= max_stream_data_remote(s), and that limit is covered by what the
-   peer sent: the transport parameter for the stream's kind, or a MAX_STREAM_DATA frame for the stream *)
+   Transport parameters exist in two transcriptions (the tie feeds the one the tree contains): [OParams], the function
+   AS IT IS in /repo (finding C06-F1 is open), needs the guard on its values; [OParamsP], the function as the PROPOSED
+   repair docs/C06-fix-1.patch would make it (not applied), needs it only when it restores remembered parameters
+   ([PTicket]).  With 0-RTT accepted ([PAccepted]) [freach] puts NO condition
+   on the values -- the function refuses a lowered value itself (accepted_0rtt_parameters_never_lower).  With 0-RTT
+   not accepted ([PRejected]) the values may be LOWER than those held; the only conditions are that they are varints
+   and that every stream existing at that moment was opened locally (the function runs while EncryptedExtensions is
+   handled, before any peer frame can be read; the tie checks it on every scenario of a repaired tree).  So on a tree
+   with the proposed repair every theorem over [freach] below would hold without an assumption on the transport
+   parameters' values; on /repo as it is, the histories the tie produces contain [OParams] only and the guard on its
+   values is a genuine assumption (refuted without it: stream_within_limit_lowered_parameters_refuted). *)
+From Coq Require Import ZArith List Bool.
+From AQ Require Import lib.Base model.RangeSet model.StreamSend model.FlowSend proofs.StreamSendP proofs.FlowSendP proofs.FlowSendP2 proofs.FlowSendP3.
+
+(* at every moment highest_offset(s) <= max_stream_data_remote(s); for a stream that is not held back by the
+   stream-count limit that limit is covered by what the peer sent: the transport parameter IN FORCE for the stream's
+   kind, or a MAX_STREAM_DATA frame for the stream; a stream that is held back has sent nothing (its limit is
+   replaced when _unblock_streams releases it) *)
 Theorem stream_within_limit : forall c gm t, freach c gm -> In t (c_streams c) ->
-  0 <= s_highest (t_send t) <= t_msdr t /\ t_msdr t <= granted c gm (t_id t).
+  0 <= s_highest (t_send t) <= t_msdr t /\
+  (t_blocked t = false -> t_msdr t <= granted c gm (t_id t)) /\
+  (t_blocked t = true -> s_highest (t_send t) = 0).
 Proof. exact stream_within_limit_l. Qed.
 Print Assumptions stream_within_limit.
 
@@ -25,15 +41,16 @@ Proof. exact connection_within_limit_l. Qed.
 Print Assumptions connection_within_limit.
 
 (* credit accounting, in EVERY state (reachable or not, guarded or not): `used` moves exactly as the sum of
-   the highest offsets moves ... *)
-Theorem retransmit_free : forall c op,
+   the highest offsets moves, in every operation but the one that forgets (repaired parameters, 0-RTT not accepted:
+   counter and highest offsets all restart from 0, rejected_0rtt_forgets) ... *)
+Theorem retransmit_free : forall c op, forgetting op = false ->
   c_used (snd (fstep c op)) - c_used c = sum_high (c_streams (snd (fstep c op))) - sum_high (c_streams c).
 Proof. exact used_tracks_highest. Qed.
 Print Assumptions retransmit_free.
 
-(* ... it changes in no operation other than a _write_stream_frame call, by the rise of that stream's
+(* ... it changes in no such operation other than a _write_stream_frame call, by the rise of that stream's
    highest_offset (so a frame that re-sends lost bytes below highest_offset costs nothing) *)
-Theorem retransmit_free_only_get : forall c op, c_used (snd (fstep c op)) <> c_used c ->
+Theorem retransmit_free_only_get : forall c op, forgetting op = false -> c_used (snd (fstep c op)) <> c_used c ->
   exists sid ms t, op = OGet sid ms /\ find_strm sid (c_streams c) = Some t /\
     c_used (snd (fstep c op)) = c_used c + (s_highest (snd (get_frame (t_send t) ms (Some (max_offset c t)))) - s_highest (t_send t)).
 Proof. exact used_changes_only_in_get. Qed.
@@ -91,7 +108,7 @@ Theorem blocked_streams_silent : forall c gm sid, freach c gm -> is_local c sid 
 Proof. exact blocked_streams_silent_l. Qed.
 Print Assumptions blocked_streams_silent.
 
-(* REFUTED without the parameter guard (candidate finding C06-F1): remembered 0-RTT parameters 100, the
+(* THE TREE AS IT IS: REFUTED without the parameter guard (open known finding C06-F1): remembered 0-RTT parameters 100, the
    handshake delivers 50; the stream created before keeps 100 and reaches highest_offset 80 > 50 = everything
    the peer has granted for it. *)
 Theorem stream_within_limit_lowered_parameters_refuted :
@@ -100,18 +117,32 @@ Theorem stream_within_limit_lowered_parameters_refuted :
 Proof. exact lowered_parameters_witness. Qed.
 Print Assumptions stream_within_limit_lowered_parameters_refuted.
 
-(* stretch ("data blocked by a limit is sent once the limit is raised"): a stream the loop serves (not blocked,
-   no reset pending, buffer not empty) whose next pending offset is below max_offset = min(connection credit,
-   stream limit) gets a frame at that offset from the next _write_stream_frame call with a positive budget.
-   _partial: that buffer_is_empty is false whenever data is pending is a hypothesis here (see docs/C06.md). *)
-Theorem unblocked_progress_partial : forall c sid ms t start rstop rest,
-  find_strm sid (c_streams c) = Some t -> t_blocked t = false ->
-  s_reset_pending (t_send t) = false -> s_empty (t_send t) = false -> s_reset (t_send t) = None ->
-  s_pending (t_send t) = (start, rstop) :: rest -> start < rstop ->
-  0 < ms -> start < max_offset c t ->
-  exists data fin c', fstep c (OGet sid ms) = (FGet (max_offset c t) (SFrame start data fin), c').
-Proof. exact unblocked_progress_l. Qed.
-Print Assumptions unblocked_progress_partial.
+(* "data blocked by a limit is sent once the limit is raised", full strength for one call of the stream loop: a stream
+   with a legitimate sender history (C10 [reach]) that is not held back by the stream-count limit, was not reset and has
+   something waiting -- a pending range (written and never sent, or declared lost) that starts below max_offset =
+   min(connection credit, stream limit), or, with no range pending, a pending FIN -- gets a frame from the next
+   _write_stream_frame call with a positive size budget: the loop's own guard (reset_pending, is_blocked,
+   buffer_is_empty) lets it through, the frame starts at the sender's next offset, carries at least one byte and ends
+   within max_offset when a range was pending, and is the bare FIN otherwise.  Which stream the loop reaches with
+   which budget is the scheduler's business (docs/C06.md, "fairness"). *)
+Theorem unblocked_progress : forall c sid ms t g,
+  find_strm sid (c_streams c) = Some t -> reach (t_send t) g ->
+  t_blocked t = false -> s_reset (t_send t) = None -> 0 < ms ->
+  has_work (t_send t) ->
+  (forall start rstop rest, s_pending (t_send t) = (start, rstop) :: rest -> start < max_offset c t) ->
+  exists data fin c',
+    fstep c (OGet sid ms) = (FGet (max_offset c t) (SFrame (next_offset (t_send t)) data fin), c') /\
+    (s_pending (t_send t) <> nil -> data <> nil /\ next_offset (t_send t) + Zlen data <= max_offset c t) /\
+    (s_pending (t_send t) = nil -> data = nil /\ fin = true).
+Proof. exact unblocked_progress_full. Qed.
+Print Assumptions unblocked_progress.
+
+(* the invariant that was missing: after EVERY operation sequence from a fresh connection (no guard of any kind),
+   a stream that is not reset and has a pending range or a pending FIN has buffer_is_empty = False *)
+Theorem buffer_flag_tracks_pending : forall cl ops t, In t (c_streams (frun (conn_init cl) ops)) ->
+  s_reset (t_send t) = None -> has_work (t_send t) -> s_empty (t_send t) = false.
+Proof. exact flag_always. Qed.
+Print Assumptions buffer_flag_tracks_pending.
 
 (* the credit counter IS the sum of the highest offsets, after EVERY operation sequence from a fresh connection:
    no parameter guard, no assumption on the delivery outcomes, any interleaving of losses, writes between a loss
@@ -163,3 +194,132 @@ Theorem straddling_frame_witness :
   map (fun t => (t_id t, s_highest (t_send t))) (c_streams c2) = (0, 80) :: (4, 120) :: nil.
 Proof. exact straddle_witness_l. Qed.
 Print Assumptions straddling_frame_witness.
+
+(* ---- the PROPOSED repair of finding C06-F1 (docs/C06-fix-1.patch; NOT applied to the tree: C06-F1 is an open known
+   finding).  The theorems of this section are statements about [OParamsP], the transcription of
+   _parse_transport_parameters AS THE PATCH WOULD MAKE IT; the tie feeds [OParamsP] only to a tree whose source contains
+   the repair, and [OParams] -- the function as it is, about which stream_within_limit_lowered_parameters_refuted
+   speaks -- to every other tree, /repo included. ---- *)
+
+(* [proposed repair] 0-RTT accepted, ANY state and ANY values: the function stores the six limits, none below the value held, or it
+   stops with PROTOCOL_VIOLATION; either way no limit is lowered and nothing but the limits changes *)
+Theorem accepted_0rtt_parameters_never_lower : forall c md bl br un sb su,
+  let r := fstep c (OParamsP PAccepted md bl br un sb su) in
+  (fst r = FOk \/ fst r = FQErr PROTOCOL_VIOLATION) /\
+  sc_le c (snd r) /\ c_max_data c <= c_max_data (snd r) /\
+  c_streams (snd r) = c_streams c /\ c_used (snd r) = c_used c /\
+  (fst r = FOk -> snd r = with_limits c (orz md 0) (orz bl 0) (orz br 0) (orz un 0) (orz sb 0) (orz su 0)).
+Proof. exact accepted_never_lowers_l. Qed.
+Print Assumptions accepted_0rtt_parameters_never_lower.
+
+(* [proposed repair] 0-RTT not accepted, ANY state and ANY values: the six limits become exactly the received values (absent = 0); every
+   stream is held back with highest_offset 0, the credit counter is 0, and no _write_stream_frame call is made for
+   any stream until _unblock_streams releases it under the new limits *)
+Theorem rejected_0rtt_forgets : forall c md bl br un sb su,
+  let r := fstep c (OParamsP PRejected md bl br un sb su) in
+  fst r = FOk /\
+  c_max_data (snd r) = orz md 0 /\ c_msd_bl (snd r) = orz bl 0 /\ c_msd_br (snd r) = orz br 0 /\
+  c_msd_uni (snd r) = orz un 0 /\ c_ms_bidi (snd r) = orz sb 0 /\ c_ms_uni (snd r) = orz su 0 /\
+  c_used (snd r) = 0 /\
+  map t_id (c_streams (snd r)) = map t_id (c_streams c) /\
+  (forall t, In t (c_streams (snd r)) -> t_blocked t = true /\ s_highest (t_send t) = 0) /\
+  (forall sid ms, silent (fst (fstep (snd r) (OGet sid ms)))).
+Proof. exact rejected_forgets_l. Qed.
+Print Assumptions rejected_0rtt_forgets.
+
+(* [proposed repair] after the handshake parameters are processed -- LOWERED ones included -- no STREAM frame exceeds the limits in
+   force: every _write_stream_frame call made in a reachable state is for a stream inside the stream-count limit in
+   force; its max_offset is within the stream's limit, which the peer granted under the parameters in force (or by
+   MAX_STREAM_DATA), and within the connection credit, where the counter is the sum of the highest offsets and stays
+   within MAX_DATA; a frame that carries data ends at or below max_offset.  [reach_upto_forget]: the sender's
+   history is legitimate in the sense of C10, up to a highest_offset that was reset by the forgetting. *)
+Theorem latest_limits_respected : forall c gm sid ms mo o c' t,
+  freach c gm -> find_strm sid (c_streams c) = Some t ->
+  fstep c (OGet sid ms) = (FGet mo o, c') ->
+  mo <= t_msdr t /\ t_msdr t <= granted c gm sid /\
+  mo <= s_highest (t_send t) + c_max_data c - c_used c /\
+  c_used c = sum_high (c_streams c) /\ c_used c' = sum_high (c_streams c') /\ c_used c' <= c_max_data c' /\
+  (is_local c sid = true -> sid / 4 < ms_for c sid) /\
+  (forall g off data fin, reach_upto_forget (t_send t) g -> o = SFrame off data fin -> data <> nil -> off + Zlen data <= mo).
+Proof. exact latest_limits_respected_l. Qed.
+Print Assumptions latest_limits_respected.
+
+(* [proposed repair] the scenario of finding C06-F1 under the repaired function (the hypotheses above are satisfiable by a history that
+   lowers the limits): remembered limit 100, 20 bytes sent in 0-RTT, 0-RTT not accepted, the handshake grants 50: the
+   stream is released with limit 50 and highest_offset 0; the lost 20 bytes and 60 new ones are cut into ONE frame that
+   stops at 50 and is charged 50; the next call yields nothing; with 0-RTT accepted the same parameters are refused
+   with PROTOCOL_VIOLATION *)
+Theorem repaired_parameters_witness :
+  let c := frun (conn_init true) ops_f1_repaired in
+  guards (conn_init true) ops_f1_repaired /\
+  (exists t, find_strm 0 (c_streams c) = Some t /\ t_blocked t = false /\ t_msdr t = 50 /\ s_highest (t_send t) = 0) /\ c_used c = 0 /\
+  (exists c1, fstep c (OGet 0 1000) = (FGet 50 (SFrame 0 (zeros 50) false), c1) /\ c_used c1 = 50 /\
+              fst (fstep c1 (OGet 0 1000)) = FGet 50 SNone) /\
+  fst (fstep (frun (conn_init true) (firstn 3 ops_f1_repaired))
+             (OParamsP PAccepted (Some 1000) (Some 50) (Some 50) (Some 50) (Some 4) (Some 4))) = FQErr PROTOCOL_VIOLATION.
+Proof. exact repaired_witness_l. Qed.
+Print Assumptions repaired_parameters_witness.
+
+(* ---- STREAMS_BLOCKED (aioquic writes no DATA_BLOCKED and no STREAM_DATA_BLOCKED frame) ---- *)
+
+(* the STREAMS_BLOCKED step of _write_application: a frame is written only for a kind whose blocked list is not
+   empty, it carries the CURRENT max_streams of that kind, and -- in a reachable state in which _unblock_streams has
+   run since max_streams last changed ([settled]) -- the first stream of the list is locally opened, of that kind,
+   held back, and its index is at or above the limit carried: the sender really is blocked at that limit *)
+Theorem streams_blocked_frame_correct : forall c gm uni l c',
+  freach c gm -> settled c -> fstep c (OBlockedFrame uni) = (FBlocked (Some l), c') ->
+  c' = c /\ l = ms_of c uni /\
+  exists sid t, In sid (blk_of c uni) /\ find_strm sid (c_streams c) = Some t /\ t_blocked t = true /\
+    is_local c sid = true /\ sid_uni sid = uni /\ l <= sid / 4.
+Proof. exact streams_blocked_frame_correct_l. Qed.
+Print Assumptions streams_blocked_frame_correct.
+
+(* [settled] holds from handshake completion on: completing the handshake establishes it in ANY state, and every
+   operation other than the processing of transport parameters (which precedes handshake completion) keeps it *)
+Theorem settled_from_handshake_completion : forall c,
+  settled (snd (fstep c OHandshakeDone)) /\
+  forall op, settled c -> params_op op = false -> settled (snd (fstep c op)).
+Proof. intros c. split; [exact (settled_after_handshake_l c)|intros op; exact (settled_step c op)]. Qed.
+Print Assumptions settled_from_handshake_completion.
+
+(* non-vacuity: max_streams_bidi 1, streams 4 and 8 held back: the frame carries 1; after MAX_STREAMS 2 (stream 4
+   released, 8 still held back) it carries 2; after MAX_STREAMS 3 none is written; never one for the uni kind *)
+Theorem streams_blocked_witness :
+  let c := frun (conn_init true) ops_sb in
+  guards (conn_init true) ops_sb /\ settled c /\
+  fst (fstep c (OBlockedFrame false)) = FBlocked (Some 1) /\ fst (fstep c (OBlockedFrame true)) = FBlocked None /\
+  fst (fstep (snd (fstep c (OMaxStreams false 2))) (OBlockedFrame false)) = FBlocked (Some 2) /\
+  fst (fstep (snd (fstep c (OMaxStreams false 3))) (OBlockedFrame false)) = FBlocked None.
+Proof. exact streams_blocked_witness_l. Qed.
+Print Assumptions streams_blocked_witness.
+
+(* ---- the order in which the stream loop serves the streams (fairness) ---- *)
+
+(* the queue update at the end of the stream loop: a stream s that stays in the queue is never overtaken -- the
+   streams visited before it afterwards are those visited before it earlier minus the ones served (with new data) or
+   discarded; their number shrinks whenever one of them was served; a newly created stream is queued behind s.
+   Together with unblocked_progress: s is passed over at most as many times as there are streams ahead of it. *)
+Theorem queue_rotation_fair : forall q gone served s, In s q -> memz s gone = false ->
+  ahead s (requeue q gone served) = filter (fun x => negb (memz x gone)) (ahead s q) /\
+  (length (ahead s (requeue q gone served)) <= length (ahead s q))%nat /\
+  (forall x, In x (ahead s q) -> memz x gone = true ->
+     (length (ahead s (requeue q gone served)) < length (ahead s q))%nat) /\
+  (forall n, ahead s (q ++ (n :: nil)) = ahead s q).
+Proof. exact queue_rotation_fair_l. Qed.
+Print Assumptions queue_rotation_fair.
+
+(* ---- progress for a whole pass of the stream loop ---- *)
+
+(* [stream_loop c q budgets]: the loop of _write_application over the queue q (per stream: STOP_SENDING branch, then
+   RESET_STREAM or STREAM), the i-th visited stream's _write_stream_frame call being offered budgets[i]; the list
+   ending early = QuicPacketBuilderStop.  If stream s is waiting (not held back, not reset, a pending range below
+   both limits or a pending FIN, C10-legitimate sender) and every call up to and including the one for s is offered a
+   positive budget, the pass cuts a STREAM frame for s or for a stream visited before s: the only thing that can take
+   s's turn away is a frame for an earlier stream -- which, if it carried new data, then moves behind s
+   (queue_rotation_fair). *)
+Theorem stream_loop_progress : forall q c budgets s t g,
+  In s q -> (length (ahead s q) < length budgets)%nat -> Forall (fun ms => 0 < ms) budgets ->
+  waiting c s t g ->
+  exists x o, In (x, o) (fst (stream_loop c q budgets)) /\ frame_in o /\ (x = s \/ In x (ahead s q)).
+Proof. exact loop_progress_l. Qed.
+Print Assumptions stream_loop_progress.
